@@ -352,13 +352,8 @@ def rule_P16(repo: Repo) -> RuleResult:
 
 # ------------------------------------------------------------------------------------------------ D3b
 
-def rule_D3b(repo: Repo) -> RuleResult:
-    """_rolling_max_or_min_1d: the new value is compared with the group's running extremum (a cell that starts as null) only
-    where the group's count of non-null values in the window is known to be non-zero; otherwise it is installed
-    unconditionally.  The non-null counter is the per-group integer array incremented only under `not is_null(value)`."""
-    res = RuleResult("D3b", "a value is compared with the running extremum only when the group's non-null count is non-zero")
-    f = repo.func(NB, "_rolling_max_or_min_1d")
-    roles = infer_roles(f)
+def _non_null_counters(f: Func, roles) -> Set[str]:
+    """per-group arrays whose `+= 1` happens only under a test that the current value is not null"""
     # non-null counters: per-group arrays whose += 1 is nested under a test that the current value is not null
     null_flags: Set[str] = set()
     for s in walk_no_nested(f.node):
@@ -386,6 +381,17 @@ def rule_D3b(repo: Repo) -> RuleResult:
                          for i in walk_no_nested(f.node))
             if not inside:
                 nn.discard(base_name(s.target))
+    return nn
+
+
+def rule_D3b(repo: Repo) -> RuleResult:
+    """_rolling_max_or_min_1d: the new value is compared with the group's running extremum (a cell that starts as null) only
+    where the group's count of non-null values in the window is known to be non-zero; otherwise it is installed
+    unconditionally.  The non-null counter is the per-group integer array incremented only under `not is_null(value)`."""
+    res = RuleResult("D3b", "a value is compared with the running extremum only when the group's non-null count is non-zero")
+    f = repo.func(NB, "_rolling_max_or_min_1d")
+    roles = infer_roles(f)
+    nn = _non_null_counters(f, roles)
     if not nn:
         raise AnalysisError("D3b: non-null counter of _rolling_max_or_min_1d not found")
     # the extremum cell and its local copy
@@ -937,4 +943,375 @@ def rule_P20(repo: Repo) -> RuleResult:
                     f"with too few values is turned into a number (e.g. variance -0.0 for an all-null group with ddof=1)")
         else:
             res.ok(f, f.node, f"{f.qualname}: no null-suppressing function", "")
+    return res
+
+
+# ------------------------------------------------------------------------------------------------ W rules (rolling windows)
+
+ROLLING_KERNELS = ("_rolling_sum_or_mean_1d", "_rolling_max_or_min_1d", "_rolling_shift_or_diff_1d")
+
+
+def _window_roles(f: Func):
+    """buffer = the per-group array subscripted [code, pos]; pos = local read from the position array P[code];
+    window = the parameter that is the buffer's second dimension"""
+    roles = infer_roles(f)
+    buf = pos = parr = window = None
+    for s in walk_no_nested(f.node):
+        if isinstance(s, ast.Assign) and len(s.targets) == 1 and isinstance(s.targets[0], ast.Name) and isinstance(s.value, ast.Call) \
+                and (call_name(s.value) or "").split(".")[-1] in ("full", "zeros", "empty") and s.value.args \
+                and isinstance(s.value.args[0], ast.Tuple) and len(s.value.args[0].elts) == 2 \
+                and isinstance(s.value.args[0].elts[1], ast.Name) and s.value.args[0].elts[1].id in f.named_params:
+            buf, window = s.targets[0].id, s.value.args[0].elts[1].id
+    if buf is None:
+        raise AnalysisError(f"W: circular buffer of {f.qualname} not found")
+    for x in walk_no_nested(f.node):
+        if isinstance(x, ast.Subscript) and isinstance(x.value, ast.Name) and x.value.id == buf and isinstance(x.slice, ast.Tuple) \
+                and len(x.slice.elts) == 2 and isinstance(x.slice.elts[1], ast.Name):
+            pos = x.slice.elts[1].id
+    for s in walk_no_nested(f.node):
+        if isinstance(s, ast.Assign) and len(s.targets) == 1 and isinstance(s.targets[0], ast.Name) and s.targets[0].id == pos \
+                and isinstance(s.value, ast.Subscript) and base_name(s.value) in roles.per_group_arrays:
+            parr = base_name(s.value)
+    if pos is None or parr is None:
+        raise AnalysisError(f"W: buffer position of {f.qualname} not found")
+    loop = None
+    for l in walk_no_nested(f.node):
+        if isinstance(l, ast.For) and any(isinstance(x, ast.Name) and x.id == pos for x in ast.walk(l)):
+            loop = l
+    return roles, buf, pos, parr, window, loop
+
+
+def _accepted_paths(f: Func, loop: ast.For):
+    from .rules_k import _mask_aliases, _selection_of_path
+    aliases = _mask_aliases(f, {"mask"})
+    out = []
+    for p in enumerate_paths(loop.body):
+        if p.exit not in ("fall", "continue"):
+            continue
+        null_key = any(pol is True and isinstance(t, ast.Compare) and len(t.ops) == 1 and isinstance(t.ops[0], ast.Lt)
+                       and const_int(t.comparators[0]) == 0 for t, pol in p.conds)
+        if null_key or _selection_of_path(p, {"mask"}, aliases) == "unselected":
+            continue
+        out.append(p)
+    return out
+
+
+def rule_W1(repo: Repo) -> RuleResult:
+    """Circular buffer discipline of the three rolling kernels, on every path that accepts a row: (a) the value is stored into
+    buffer[code, pos] exactly once; (b) the group's position becomes (pos + 1) % window exactly once; (c) the group's row
+    counter is compared with the window by `>=` (the buffer is full once `window` rows were accepted) and is incremented by one
+    exactly on the paths where the buffer is not yet full."""
+    res = RuleResult("W1", "rolling kernels: buffer store, position advance modulo the window, fullness test and row counter")
+    nb = repo.mod(NB)
+    for kname in ROLLING_KERNELS:
+        f = nb.func(kname)
+        roles, buf, pos, parr, window, loop = _window_roles(f)
+        # fullness: a comparison  X >= window  where X is (a local read from) a per-group counter cell
+        full_cmp = None
+        counter = None
+        local_cells = {s.targets[0].id: base_name(s.value) for s in walk_no_nested(f.node)
+                       if isinstance(s, ast.Assign) and len(s.targets) == 1 and isinstance(s.targets[0], ast.Name)
+                       and isinstance(s.value, ast.Subscript) and base_name(s.value) in roles.per_group_arrays}
+        for c in walk_no_nested(f.node):
+            if isinstance(c, ast.Compare) and len(c.ops) == 1 and isinstance(c.comparators[0], ast.Name) \
+                    and c.comparators[0].id == window:
+                left = c.left
+                arr = base_name(left) if isinstance(left, ast.Subscript) else local_cells.get(left.id) if isinstance(left, ast.Name) else None
+                if arr in roles.per_group_arrays and arr != parr:
+                    full_cmp, counter = c, arr
+        if full_cmp is None:
+            raise AnalysisError(f"W1: fullness test of {kname} not found")
+        if isinstance(full_cmp.ops[0], ast.GtE):
+            res.ok(f, full_cmp, f"{kname}: {norm(full_cmp)}", "the buffer is full once `window` rows of the group were accepted")
+        else:
+            res.bad(f, full_cmp, f"{kname}: {norm(full_cmp)}",
+                    f"the buffer of a group must count as full when its row counter has reached the window ({counter}[key] >= {window}); "
+                    f"with this comparison the oldest value is evicted one row too late / too early, so windows hold "
+                    f"{window}+1 or {window}-1 rows")
+        full_txt = norm(full_cmp)
+        full_names = {s.targets[0].id for s in walk_no_nested(f.node) if isinstance(s, ast.Assign) and len(s.targets) == 1
+                      and isinstance(s.targets[0], ast.Name) and norm(s.value) == full_txt}
+        for p in _accepted_paths(f, loop):
+            stores = [st for st in p.stmts if isinstance(st, ast.Assign) and isinstance(st.targets[0], ast.Subscript)
+                      and base_name(st.targets[0]) == buf]
+            adv = [st for st in p.stmts if isinstance(st, ast.Assign) and isinstance(st.targets[0], ast.Subscript)
+                   and base_name(st.targets[0]) == parr]
+            incs = [st for st in p.stmts if isinstance(st, ast.AugAssign) and isinstance(st.target, ast.Subscript)
+                    and base_name(st.target) == counter and isinstance(st.op, ast.Add) and const_int(st.value) == 1]
+            decisions = set()
+            for t, pol in p.conds:
+                if isinstance(t, ast.AST) and (norm(t) == full_txt or (isinstance(t, ast.Name) and t.id in full_names)):
+                    decisions.add(pol)
+                if isinstance(t, ast.UnaryOp) and isinstance(t.op, ast.Not) and isinstance(t.operand, ast.Name) \
+                        and t.operand.id in full_names:
+                    decisions.add(not pol)
+                if isinstance(t, ast.BoolOp) and isinstance(t.op, ast.And) and pol is True:
+                    for v in t.values:
+                        if isinstance(v, ast.Name) and v.id in full_names:
+                            decisions.add(True)
+            if len(decisions) > 1:
+                continue            # the flag is decided both ways: not a feasible path (the counter is not written in between)
+            is_full = next(iter(decisions)) if decisions else None
+            desc = p.describe()[:80]
+            # (a)
+            if len(stores) == 1 and norm(stores[0].targets[0].slice.elts[1] if isinstance(stores[0].targets[0].slice, ast.Tuple) else stores[0].targets[0].slice) == pos:
+                res.ok(f, stores[0], f"{kname}: {norm(stores[0])} on {desc}", "one store at the current position")
+            else:
+                res.bad(f, stores[0] if stores else loop, f"{kname}: {len(stores)} buffer store(s) on {desc}",
+                        "an accepted row must be written into the group's circular buffer exactly once, at the current position",
+                        path=p.describe())
+            # (b)
+            env = {}
+            ok_adv = False
+            if len(adv) == 1:
+                v = _canon(adv[0].value, {})
+                want = ("Mod", ("add", ("const", "1"), ("name", pos)), ("name", window))
+                alt = ("Mod", ("add", ("name", pos), ("const", "1")), ("name", window))
+                ok_adv = v in (want, alt)
+                if not ok_adv and isinstance(adv[0].value, ast.Name):
+                    d = [s for s in p.stmts if isinstance(s, ast.Assign) and len(s.targets) == 1 and isinstance(s.targets[0], ast.Name)
+                         and s.targets[0].id == adv[0].value.id]
+                    ok_adv = bool(d) and _canon(d[-1].value, {}) in (want, alt)
+            if ok_adv:
+                res.ok(f, adv[0], f"{kname}: {norm(adv[0])} on {desc}", "position advances by one modulo the window")
+            else:
+                res.bad(f, adv[0] if adv else loop, f"{kname}: position update {norm(adv[0]) if adv else '<none>'} on {desc}",
+                        f"after an accepted row the group's buffer position must become ({pos} + 1) % {window}, exactly once; "
+                        f"otherwise rows overwrite each other or the buffer is indexed past its end", path=p.describe())
+            # (c)
+            if is_full is not None:
+                want_inc = 0 if is_full else 1
+                if len(incs) == want_inc:
+                    res.ok(f, loop, f"{kname}: row counter +{len(incs)} on {desc}", "counted exactly while the buffer fills up")
+                else:
+                    res.bad(f, incs[0] if incs else loop, f"{kname}: row counter +{len(incs)} on {desc}",
+                            f"the group's row counter must be incremented exactly on the paths where the buffer is not yet full "
+                            f"(this path: {'full' if is_full else 'not full'})", path=p.describe())
+    seen, uniq = set(), []
+    for v in res.violations:
+        if v.key() not in seen:
+            seen.add(v.key()); uniq.append(v)
+    res.violations = uniq
+    return res
+
+
+def rule_W2(repo: Repo) -> RuleResult:
+    """Emission rule of the windowed aggregations: `min_periods` defaults to the window, and the output row is written only
+    under `non_null_count[code] >= min_periods`; when the buffer is full the evicted value is read from the buffer before the
+    new value overwrites it."""
+    res = RuleResult("W2", "rolling kernels: min_periods default and emission guard; evicted value read before it is overwritten")
+    nb = repo.mod(NB)
+    for kname in ROLLING_KERNELS[:2]:
+        f = nb.func(kname)
+        roles, buf, pos, parr, window, loop = _window_roles(f)
+        mp = "min_periods" if "min_periods" in f.named_params else None
+        if mp is None:
+            raise AnalysisError(f"W2: {kname} no longer has a min_periods parameter")
+        default_ok = any(isinstance(i, ast.If) and norm(i.test) == f"{mp} is None" and any(
+            isinstance(s, ast.Assign) and norm(s) == f"{mp} = {window}" for s in i.body) for i in f.node.body)
+        if default_ok:
+            res.ok(f, f.node, f"{kname}: {mp} defaults to {window}", "")
+        else:
+            res.bad(f, f.node, f"{kname}: default of {mp}", f"an omitted {mp} must mean the window size")
+        outs = [s for s in ast.walk(loop) if isinstance(s, ast.Assign) and isinstance(s.targets[0], ast.Subscript)
+                and base_name(s.targets[0]) in roles.row_aligned_arrays | {"out"} and base_name(s.targets[0]) not in f.named_params]
+        if not outs:
+            raise AnalysisError(f"W2: output store of {kname} not found")
+        for o in outs:
+            guards = [t for t in _enclosing_tests_of(loop, o)]
+            nn = _non_null_counters(f, roles)
+            ok = any(isinstance(t, ast.Compare) and len(t.ops) == 1 and isinstance(t.ops[0], ast.GtE)
+                     and isinstance(t.left, ast.Subscript) and base_name(t.left) in nn
+                     and isinstance(t.comparators[0], ast.Name) and t.comparators[0].id == mp for t in guards)
+            if ok:
+                res.ok(f, o, f"{kname}: {norm(o)[:50]}", f"emitted under non-null count >= {mp}")
+            else:
+                res.bad(f, o, f"{kname}: {norm(o)[:50]} under {[norm(g) for g in guards][-1:]}",
+                        f"a result row must be emitted exactly when the window holds at least {mp} non-null values "
+                        f"(non_null[key] >= {mp})")
+        # eviction read precedes the overwrite on full paths
+        for p in _accepted_paths(f, loop):
+            st_idx = [i for i, st in enumerate(p.stmts) if isinstance(st, ast.Assign) and isinstance(st.targets[0], ast.Subscript)
+                      and base_name(st.targets[0]) == buf]
+            rd_idx = [i for i, st in enumerate(p.stmts) if isinstance(st, ast.Assign) and isinstance(st.value, ast.Subscript)
+                      and base_name(st.value) == buf and isinstance(st.value.slice, ast.Tuple)]
+            if rd_idx and st_idx and min(rd_idx) > min(st_idx):
+                res.bad(f, p.stmts[rd_idx[0]], f"{kname}: eviction read after the overwrite on {p.describe()[:70]}",
+                        "the value that leaves the window is read from the buffer after the new value was stored at the same "
+                        "position: the new value is removed instead of the oldest one", path=p.describe())
+            elif rd_idx and st_idx:
+                res.ok(f, p.stmts[rd_idx[0]], f"{kname}: eviction read before the overwrite on {p.describe()[:70]}", "")
+    seen, uniq = set(), []
+    for v in res.violations:
+        if v.key() not in seen:
+            seen.add(v.key()); uniq.append(v)
+    res.violations = uniq
+    return res
+
+
+def _enclosing_tests_of(root: ast.AST, stmt: ast.AST) -> List[ast.AST]:
+    out: List[ast.AST] = []
+
+    def rec(n, tests):
+        if n is stmt:
+            out.extend(tests)
+            return True
+        for fld, val in ast.iter_fields(n):
+            if isinstance(val, list):
+                for c in val:
+                    if isinstance(c, ast.AST):
+                        t2 = tests + [n.test] if isinstance(n, ast.If) and fld == "body" else tests
+                        if rec(c, t2):
+                            return True
+        return False
+
+    rec(root, [])
+    return out
+
+
+# ------------------------------------------------------------------------------------------------ H rules (row selection, counting sort)
+
+def rule_H1(repo: Repo) -> RuleResult:
+    """Row-selection scans.  _find_nth: on every accepted-row path the group's occurrence counter is incremented exactly once,
+    after it was compared (`== n`) to decide whether this row is the one; a negative n scans backwards with n := -n - 1.
+    _find_first_or_last_n: the slot index is the counter value before the increment and the row is stored only under
+    `slot < n`; the counter advances by one for every stored row."""
+    res = RuleResult("H1", "head/tail/nth scans: occurrence counter compared before it is incremented, once per accepted row")
+    nb = repo.mod(NB)
+    # ---- _find_nth
+    f = nb.func("_find_nth")
+    roles = infer_roles(f)
+    loop = [l for l in walk_no_nested(f.node) if isinstance(l, ast.For)][-1]
+    npar = f.named_params[2]
+    from .rules_k import _mask_aliases, _selection_of_path
+    aliases = _mask_aliases(f, {"mask"})
+    counters = {base_name(s.target) for s in ast.walk(loop) if isinstance(s, ast.AugAssign) and isinstance(s.target, ast.Subscript)
+                and isinstance(s.op, ast.Add) and const_int(s.value) == 1 and base_name(s.target) in roles.per_group_arrays}
+    if len(counters) != 1:
+        raise AnalysisError(f"H1: occurrence counter of _find_nth not identified ({sorted(counters)})")
+    cnt = next(iter(counters))
+    for p in enumerate_paths(loop.body):
+        if p.exit not in ("fall", "continue"):
+            continue
+        if any(pol is True and isinstance(t, ast.Compare) and isinstance(t.ops[0], ast.Lt) and const_int(t.comparators[0]) == 0
+               for t, pol in p.conds if isinstance(t, ast.Compare) and len(t.ops) == 1):
+            continue
+        if _selection_of_path(p, {"mask"}, aliases) == "unselected":
+            continue
+        incs = [i for i, st in enumerate(p.stmts) if isinstance(st, ast.AugAssign) and isinstance(st.target, ast.Subscript)
+                and base_name(st.target) == cnt]
+        stores = [i for i, st in enumerate(p.stmts) if isinstance(st, ast.Assign) and isinstance(st.targets[0], ast.Subscript)
+                  and base_name(st.targets[0]) in roles.per_group_arrays and base_name(st.targets[0]) != cnt]
+        cmp_ok = any(isinstance(t, ast.Compare) and len(t.ops) == 1 and isinstance(t.ops[0], ast.Eq)
+                     and isinstance(t.left, ast.Subscript) and base_name(t.left) == cnt and isinstance(t.comparators[0], ast.Name)
+                     and t.comparators[0].id == npar for t, pol in p.conds if pol is True)
+        desc = p.describe()[:80]
+        if len(incs) != 1:
+            res.bad(f, loop, f"_find_nth: counter +{len(incs)} on {desc}",
+                    "the group's occurrence counter must be incremented exactly once for every accepted row", path=p.describe())
+        elif stores and (not cmp_ok or min(stores) > incs[0]):
+            res.bad(f, p.stmts[stores[0]], f"_find_nth: {norm(p.stmts[stores[0]])} on {desc}",
+                    f"the row is recorded without `{cnt}[k] == {npar}` having been tested before the counter is incremented: "
+                    f"another occurrence than the n-th is selected", path=p.describe())
+        else:
+            res.ok(f, loop, f"_find_nth: counter +1{', row stored under == n' if stores else ''} on {desc}", "")
+    # negative n: reversed range and n := -n - 1 in the same arm
+    arm_ok = False
+    for i in f.node.body:
+        if isinstance(i, ast.If) and isinstance(i.test, ast.Compare) and npar in _names(i.test):
+            for arm in (i.body, i.orelse):
+                rev = any(isinstance(s_, ast.Assign) and _reversed_range(s_.value) for s_ in arm)
+                flip = any(isinstance(s_, ast.Assign) and isinstance(s_.targets[0], ast.Name) and s_.targets[0].id == npar
+                           and _canon(s_.value, {}) in (("add", ("const", "-1"), ("neg", ("name", npar))),
+                                                        ("add", ("neg", ("const", "1")), ("neg", ("name", npar))),
+                                                        ("add", ("neg", ("name", npar)), ("neg", ("const", "1")))) for s_ in arm)
+                if rev and flip:
+                    arm_ok = True
+                elif rev != flip:
+                    res.bad(f, i, f"_find_nth: negative-n arm (reversed scan={rev}, n := -n - 1={flip})",
+                            "counting from the end requires both the reversed scan and n := -n - 1 in the same arm")
+    if arm_ok:
+        res.ok(f, f.node, "_find_nth: negative n scans backwards with n := -n - 1", "")
+    # ---- _find_first_or_last_n
+    g = nb.func("_find_first_or_last_n")
+    roles = infer_roles(g)
+    loop = [l for l in walk_no_nested(g.node) if isinstance(l, ast.For)][-1]
+    npar = g.named_params[2]
+    found = 0
+    for st in ast.walk(loop):
+        if isinstance(st, ast.Assign) and isinstance(st.targets[0], ast.Subscript) and isinstance(st.targets[0].slice, ast.Tuple) \
+                and len(st.targets[0].slice.elts) == 2 and base_name(st.targets[0]) not in g.named_params:
+            found += 1
+            slot = st.targets[0].slice.elts[1]
+            guards = _enclosing_tests_of(loop, st)
+            ok_guard = any(isinstance(t, ast.Compare) and len(t.ops) == 1 and isinstance(t.ops[0], ast.Lt) and norm(t.left) == norm(slot)
+                           and isinstance(t.comparators[0], ast.Name) and t.comparators[0].id == npar for t in guards)
+            # slot = counter[k] read before the increment
+            slot_def = [s_ for s_ in loop.body if isinstance(s_, ast.Assign) and len(s_.targets) == 1 and norm(s_.targets[0]) == norm(slot)
+                        and isinstance(s_.value, ast.Subscript) and base_name(s_.value) in roles.per_group_arrays]
+            if ok_guard and slot_def:
+                res.ok(g, st, f"_find_first_or_last_n: {norm(st)} under {norm(slot)} < {npar}", "slot = occurrences seen so far")
+            else:
+                res.bad(g, st, f"_find_first_or_last_n: {norm(st)}",
+                        f"a row must be stored at slot = (occurrences of its group seen so far) and only while that slot is < {npar}")
+    if found < 1:
+        raise AnalysisError("H1: slot store of _find_first_or_last_n not found")
+    seen, uniq = set(), []
+    for v in res.violations:
+        if v.key() not in seen:
+            seen.add(v.key()); uniq.append(v)
+    res.violations = uniq
+    return res
+
+
+def rule_H2(repo: Repo) -> RuleResult:
+    """Counting sort of _build_group_sorted_indexer_numba: group starts are the running sum of the group counts
+    (starts[g+1] = starts[g] + counts[g]); every accepted row is written at its group's current position, which then
+    advances by one."""
+    res = RuleResult("H2", "group-sorted indexer: prefix-sum group starts; one write at the group's position, then position + 1")
+    f = repo.func(CORE, "GroupBy._build_group_sorted_indexer_numba")
+    roles = infer_roles(f)
+    ok_prefix = False
+    for l in walk_no_nested(f.node):
+        if isinstance(l, ast.For) and isinstance(l.target, ast.Name):
+            i = l.target.id
+            for st in l.body:
+                if isinstance(st, ast.Assign) and isinstance(st.targets[0], ast.Subscript) and isinstance(st.value, ast.BinOp) \
+                        and isinstance(st.value.op, ast.Add):
+                    tgt = st.targets[0]
+                    a = _canon(tgt.slice, {})
+                    if a in (("add", ("const", "1"), ("name", i)), ("add", ("name", i), ("const", "1"))):
+                        sides = [st.value.left, st.value.right]
+                        same = [x for x in sides if isinstance(x, ast.Subscript) and base_name(x) == base_name(tgt) and norm(x.slice) == i]
+                        cnts = [x for x in sides if isinstance(x, ast.Subscript) and base_name(x) in f.named_params and norm(x.slice) == i]
+                        if same and cnts:
+                            ok_prefix = True
+                            res.ok(f, st, norm(st), "running sum of the group counts")
+    if not ok_prefix:
+        res.bad(f, f.node, "group starts", "the group start offsets are no longer the running sum starts[g+1] = starts[g] + counts[g]")
+    loop = None
+    for l in walk_no_nested(f.node):
+        if isinstance(l, ast.For) and any(isinstance(x, ast.Name) and x.id in roles.code_vars for x in ast.walk(l.target)):
+            loop = l
+    if loop is None:
+        raise AnalysisError("H2: row loop of the counting sort not found")
+    n = 0
+    for p in enumerate_paths(loop.body):
+        writes = [st for st in p.stmts if isinstance(st, ast.Assign) and isinstance(st.targets[0], ast.Subscript)
+                  and base_name(st.targets[0]) not in roles.per_group_arrays and base_name(st.targets[0]) not in f.named_params]
+        incs = [st for st in p.stmts if isinstance(st, ast.AugAssign) and isinstance(st.target, ast.Subscript)
+                and base_name(st.target) in roles.per_group_arrays and isinstance(st.op, ast.Add) and const_int(st.value) == 1]
+        accepted = any(pol is True and isinstance(t, ast.AST) and ">= 0" in norm(t) for t, pol in p.conds)
+        if not accepted:
+            if writes or incs:
+                res.bad(f, (writes or incs)[0], f"skipped row writes on {p.describe()[:70]}", "a skipped row must not move any position")
+            continue
+        n += 1
+        if len(writes) == 1 and len(incs) == 1 and p.stmts.index(writes[0]) < p.stmts.index(incs[0]):
+            res.ok(f, writes[0], f"{norm(writes[0])}; {norm(incs[0])} on {p.describe()[:60]}", "")
+        else:
+            res.bad(f, loop, f"{len(writes)} write(s), {len(incs)} position increment(s) on {p.describe()[:60]}",
+                    "every accepted row must be written once at its group's current position, which then advances by one")
+    if n < 1:
+        raise AnalysisError("H2: no accepted-row path found")
     return res
